@@ -44,7 +44,7 @@ PROPS = {
     },
     "C12": {
         "level": "exploration", "quick_s": 40, "thorough_s": 900, "thorough_seeds": 4,
-        "rule": "C01 programs in which blocks are wrapped in 1..3 levels of embedded sub-process (also inside parallel and inclusive branches, and - known-finding stratum - inside loops); each run executes the wrapped program and its inlined twin generated from the same draws, under the same answer plan; oracle = token game on the wrapped run (sub-process boundaries transparent) + differential comparison with the twin; distinct = schedule hash; non-trivial = at least one wrapper and a context switch",
+        "rule": "C01 programs in which blocks are wrapped in 1..3 levels of embedded sub-process (also inside parallel and inclusive branches and inside loops); each run executes the wrapped program and its inlined twin generated from the same draws, under the same answer plan; oracle = token game on the wrapped run (sub-process boundaries transparent) + differential comparison with the twin; distinct = schedule hash; non-trivial = at least one wrapper and a context switch",
     },
     "C02": {
         "level": "exploration", "quick_s": 35, "thorough_s": 900, "thorough_seeds": 4,
@@ -62,7 +62,7 @@ PROPS = {
     },
     "C08": {
         "level": "exploration", "quick_s": 35, "thorough_s": 900, "thorough_seeds": 4,
-        "rule": "T1 -> exclusive gateway reading T1's declared result (variable or data object) -> T2|T3 whose properties reference T1's results; answer history of T1: 1..3 Do calls sequential or from concurrent goroutines, declared + undeclared result fields and data outputs, error without handler / skip / exit / retry(n in 0..3) with success on attempt j or never, handler decision optionally late, never answered + task time-out, optional definition-level retries attribute; oracle: token game with error modes + call/return stamps of every Do + first-answer linearisation + visibility to the next task; distinct = schedule hash; non-trivial = a context switch Further strata: a task without any result declaration (or with a task definition only) in front, answered with results like the others.",
+        "rule": "T1 -> exclusive gateway reading T1's declared result (variable or data object) -> T2|T3 whose properties reference T1's results; answer history of T1: 1..3 Do calls sequential or from concurrent goroutines, declared + undeclared result fields and data outputs, error without handler / skip / exit / retry(n in 0..3) with success on attempt j or never, handler decision optionally late, never answered + task time-out, optional definition-level retries attribute; oracle: token game with error modes + call/return stamps of every Do + first-answer linearisation + visibility to the next task; distinct = schedule hash; non-trivial = a context switch Further strata: a task without any result declaration (or with a task definition only) in front, answered with results like the others. Further stratum: the Do calls answering one request are of different kinds (results / error without handler); which kind took effect is read off the trace stream and nothing of the other kind may show.",
     },
     "C11": {
         "level": "exploration", "quick_s": 35, "thorough_s": 900, "thorough_seeds": 4,
@@ -74,7 +74,7 @@ PROPS = {
     },
     "C06": {
         "level": "exploration", "quick_s": 30, "thorough_s": 600, "thorough_seeds": 4,
-        "rule": "event-based gateway with 2..3 alternatives (signal / message catch events, each followed by its own task and end event), optionally behind a task; event plans: non-empty sequences (length 1..4) over the competing events plus a stranger, delivered one at a time at quiescent moments (exact model) or from separate goroutines at the same moment once all alternatives are armed; later deliveries of losing events included; oracle: exactly one branch task, only for a delivered event, one determination, completion, every ConsumeEvent returns; distinct = schedule hash; non-trivial = a context switch Further stratum: events delivered the moment a drawn number of alternatives has reported that it listens (racing with the arming of the gateway), the first competitor delivered once more at rest.",
+        "rule": "event-based gateway with 2..3 alternatives (signal / message catch events, each followed by its own task and end event), optionally behind a task; event plans: non-empty sequences (length 1..4) over the competing events plus a stranger, delivered one at a time at quiescent moments (exact model) or from separate goroutines at the same moment once all alternatives are armed; later deliveries of losing events included; oracle: exactly one branch task, only for a delivered event, one determination, completion, every ConsumeEvent returns; distinct = schedule hash; non-trivial = a context switch Further stratum: events delivered the moment a drawn number of alternatives has reported that it listens (racing with the arming of the gateway), the first competitor delivered once more at rest. Further stratum: two tokens behind the same gateway at the same time (parallel fork in front of it, one branch optionally through a task).",
     },
     "C10": {
         "level": "exploration", "quick_s": 30, "thorough_s": 600, "thorough_seeds": 4,
@@ -82,7 +82,7 @@ PROPS = {
     },
     "C13": {
         "level": "exploration", "quick_s": 30, "thorough_s": 600, "thorough_seeds": 4,
-        "rule": "timer definitions (date, duration, cycle Rn|R / start|now / interval / optional end, n in 0..3) on clock.Mock, on the real clock.Host code under the simulator's fake time, and inside a process with a timer catch event (optionally behind a task); clock histories of 1..6 non-decreasing values drawn from the grid {500ms before, 1ns before, exactly at, 1ns after, far beyond, unchanged} around every due instant and the end bound; cancellation before a drawn step; the run is brought to quiescence after every step; oracle: independent arithmetic over the history (never early, exact count, spacing by construction of the reference, end bound, silent after cancel, channel closed); distinct = schedule hash; non-trivial = more than one clock step",
+        "rule": "timer definitions (date, duration, cycle Rn|R / start|now / interval / optional end, n in 0..3) on clock.Mock, on the real clock.Host code under the simulator's fake time, and inside a process with a timer catch event (optionally behind a task); clock histories of 1..6 non-decreasing values drawn from the grid {500ms before, 1ns before, exactly at, 1ns after, far beyond, unchanged} around every due instant and the end bound; cancellation before a drawn step; the run is brought to quiescence after every step; oracle: independent arithmetic over the history (never early, exact count, spacing by construction of the reference, end bound, silent after cancel, channel closed); distinct = schedule hash; non-trivial = more than one clock step Further stratum: the mock clock is also set back (timer alone).",
         "oracle": "reference arithmetic over the clock history",
     },
     "C18": {
@@ -98,7 +98,7 @@ PROPS = {
         "level_text": 'the behaviour clause (engine identical on original and re-parsed model) is decided by seeded simulation: the real engine runs on the re-parsed model under generated fault plans and goroutine schedules and is judged by a reference model derived from the original diagram; the structural clauses (equivalent model, serialising alters nothing, ids retrievable) are deterministic comparisons on the same generated documents and on every bundled file (DESIGN.md section 6)',
         "level_note": 'sampling, not proof; the structural comparison ignores whitespace-only text and treats absent and empty payloads alike; scenario families with open findings (C10, C12 loops) are not used as carriers',
         "level": "exploration", "quick_s": 35, "thorough_s": 900, "thorough_seeds": 4,
-        "rule": "generated definitions of the C01 (all gateway kinds, defaults, expr and XPath conditions, data-dependent conditions, sub-processes), C03, C04 (data objects), C05, C06, C08 (olive properties/results/data outputs, task definitions), C11, C13 (timer definitions), C14 (multiple event definitions) and C18 (collaborations, message flows, several processes) families are parsed, serialised with encoding/xml and parsed again; the engine then runs on the RE-PARSED model under the family's fault plan and a tape-driven goroutine schedule and the recorded history is checked by the family's oracle, which is derived from the ORIGINAL graph (behaviour clause); before each run the same document is compared structurally (original vs re-parsed, serialised model vs an untouched twin, every id retrievable); once per invocation every bundled .bpmn file goes through the structural comparison; distinct = schedule hash; non-trivial = as in the family",
+        "rule": "generated definitions of the C01 (all gateway kinds, defaults, expr and XPath conditions, data-dependent conditions, sub-processes), C03, C04 (data objects), C05, C06, C08 (olive properties/results/data outputs, task definitions), C11, C13 (timer definitions), C14 (multiple event definitions) and C18 (collaborations, message flows, several processes) families are parsed, serialised with encoding/xml and parsed again; the engine then runs on the RE-PARSED model under the family's fault plan and a tape-driven goroutine schedule and the recorded history is checked by the family's oracle, which is derived from the ORIGINAL graph (behaviour clause); before each run the same document is compared structurally (original vs re-parsed, serialised model vs an untouched twin, every id retrievable); once per invocation every bundled .bpmn file goes through the structural comparison; distinct = schedule hash; non-trivial = as in the family Further stratum: the parsed model is edited in memory before it is serialised (free-text fields of the zoo process get values a parser would never produce: leading and trailing blanks, tabs, entities), and attribute strings are compared exactly.",
         "oracle": "reference model of the original diagram over the history of the re-parsed one + field-by-field model comparison",
     },
     "C19": {
@@ -114,7 +114,7 @@ PROPS = {
         "level_text": 'isolation between concurrently running instances and absence of panics in engine goroutines are decided by seeded simulation of 1..3 instances with generated values under tape-driven interleavings; the canonical-form reference the read-back values are compared with is sequential code (DESIGN.md section 6)',
         "level_note": 'sampling, not proof; values outside the statement (unsigned > MaxInt64, NaN/Inf, []byte) are not generated; for nil and for declared types that do not match the supplied value only the absence of a panic is required',
         "level": "exploration", "quick_s": 30, "thorough_s": 600, "thorough_seeds": 4,
-        "rule": "1..3 instances of one process (service task writing results and data outputs -> service task reading them through typed properties, headers with $references and data inputs) run at the same time in one simulation, each driven by its own client goroutine; instance variables, task results and data outputs are drawn from 24 kinds of Go values (every integer width signed and unsigned with boundary values, float32/64, unicode / empty / quoted strings, booleans, slices, arrays, nested maps, structs, pointers, nil, typed nil pointers, deep nesting), the same kinds but different contents per instance; properties are declared with matching and with non-matching item types, by name and by references to present and absent paths; tape-driven interleaving of all instances' goroutines; oracle: what instance i reads (Locator().CloneVariables() after start and at the end, TaskTrace.GetProperties/GetDataObjects/GetHeaders of the next task) is the canonical form of what instance i wrote, never another instance's value, and no simulated goroutine panics; distinct = schedule hash; non-trivial = a context switch",
+        "rule": "1..3 instances of one process (service task writing results and data outputs -> service task reading them through typed properties, headers with $references and data inputs) run at the same time in one simulation, each driven by its own client goroutine; instance variables, task results and data outputs are drawn from 24 kinds of Go values (every integer width signed and unsigned with boundary values, float32/64, unicode / empty / quoted strings, booleans, slices, arrays, nested maps, structs, pointers, nil, typed nil pointers, deep nesting), the same kinds but different contents per instance; properties are declared with matching and with non-matching item types, by name and by references to present and absent paths; tape-driven interleaving of all instances' goroutines; oracle: what instance i reads (Locator().CloneVariables() after start and at the end, TaskTrace.GetProperties/GetDataObjects/GetHeaders of the next task) is the canonical form of what instance i wrote, never another instance's value, and no simulated goroutine panics; distinct = schedule hash; non-trivial = a context switch Further strata: a name that already holds a value is written again with a value of another kind (through the locator, by the same task, by a later task); an exclusive gateway behind the reading task routes every instance by a data object that instance stored; the client changes every value it has read in place.",
         "oracle": "canonical-form reference per instance + panic capture in every simulated goroutine",
     },
     "C17": {
